@@ -272,6 +272,32 @@ type HasUKM struct {
 	D UKM
 }
 
+// Wide is a struct of 70 fields (more than a machine word has bits): its Go type is made with
+// reflect.StructOf, its schema text and shape are generated alongside.
+var wideT = func() reflect.Type {
+	var fs []reflect.StructField
+	for i := 0; i < 70; i++ {
+		fs = append(fs, reflect.StructField{Name: fmt.Sprintf("F%02d", i), Type: reflect.TypeOf(int64(0))})
+	}
+	return reflect.StructOf(fs)
+}()
+
+func wideSchema() string {
+	out := "type Wide struct {"
+	for i := 0; i < 70; i++ {
+		out += fmt.Sprintf(" F%02d Int ", i)
+	}
+	return out + "}\n"
+}
+
+func wideVal(mul int64) interface{} {
+	v := reflect.New(wideT)
+	for i := 0; i < 70; i++ {
+		v.Elem().Field(i).SetInt(mul * int64(i+1))
+	}
+	return v.Interface()
+}
+
 // UK2 is a kinded union whose members include structs that are not maps in representation.
 type UK2 struct {
 	T *Tuple
@@ -562,6 +588,11 @@ var vocab = []vtype{
 				return &HasUKM{A: UKM{S: &OptS{C: "only c"}}, B: UKM{T: &OptT{X: 7}}, C: UKM{N: ip(0)}, D: UKM{T: &OptT{X: 0, Y: ip(0)}}}
 			},
 		}},
+	{name: "Wide", schema: "Wide", ptr: func() interface{} { return reflect.Zero(reflect.PtrTo(wideT)).Interface() },
+		vals: []func() interface{}{
+			func() interface{} { return wideVal(1) },
+			func() interface{} { return wideVal(-3) },
+		}},
 	{name: "OptColl", schema: "OptColl", ptr: func() interface{} { return (*OptColl)(nil) },
 		vals: []func() interface{}{
 			func() interface{} {
@@ -618,7 +649,7 @@ var explicitTS *schema.TypeSystem
 
 func ts() *schema.TypeSystem {
 	if explicitTS == nil {
-		t, err := ipld.LoadSchemaBytes([]byte(schemaSrc))
+		t, err := ipld.LoadSchemaBytes([]byte(schemaSrc + wideSchema()))
 		if err != nil {
 			panic("harness: schema does not load: " + err.Error())
 		}
@@ -1027,7 +1058,7 @@ func Sample(which, val int) (name string, n schema.TypedNode) {
 // worlds in one process gives each its own, so that damage one run does to a type system
 // cannot reach the next run).
 func NewTypeSystem() *schema.TypeSystem {
-	t, err := ipld.LoadSchemaBytes([]byte(schemaSrc))
+	t, err := ipld.LoadSchemaBytes([]byte(schemaSrc + wideSchema()))
 	if err != nil {
 		panic("harness: schema does not load: " + err.Error())
 	}
